@@ -155,6 +155,16 @@ func TestPersistStress(t *testing.T) {
 				time.Sleep(50 * time.Millisecond)
 			}
 		}
+		if up {
+			// is it OUR server behind that port (another process may have taken it)?
+			marker := fmt.Sprintf("verif-probe-%d.invalid.", os.Getpid())
+			if resp, err := client.Get(r.base + "/api/v1/block/set/" + url.PathEscape(marker)); err == nil {
+				io.Copy(io.Discard, resp.Body)
+				resp.Body.Close()
+			}
+			up = r.bl.Exists(marker)
+			r.bl.Remove(marker)
+		}
 		if !up {
 			r.base = ""
 		}
@@ -255,6 +265,10 @@ func TestPersistStress(t *testing.T) {
 		rep := map[string]any{"driver": "stress", "round": ri, "seed": vh.Seed(), "goroutines": in.Goroutines, "ops": in.Ops}
 		tmps, _ := filepath.Glob(filepath.Join(r.dir, "local.tmp.*"))
 		ver, _ := r.bl.VerifVersions()
+		if ver < 2 {
+			res.Skip("round %d: the API traffic did not reach the BlockList (version %d)", ri, ver)
+			return
+		}
 		switch {
 		case len(tmps) > 0:
 			res.Violate("stress/Converged", fmt.Sprintf("every API call returned but temp files are left behind: %v", tmps), rep)
